@@ -78,7 +78,7 @@ func c17Formats() []c17Fmt {
 	}
 }
 
-var c17Patterns = []string{"P", "PF", "FFP", "PFFF", "PT", "TTP", "PFT", "FTFTP"}
+var c17Patterns = []string{"P", "PF", "FP", "FFP", "PFFF", "FFFFP", "PT", "TP", "TTP", "PFT", "FTFTP", "TFFTP", "PPF", "PPTT"}
 
 type c17Case struct {
 	Fmt     string `json:"format_item"`
@@ -249,9 +249,9 @@ func init() {
 			"non-target declarations that themselves repeat without bound (e.g. repeated global envelopes) are outside the property ('a fixed set of ancestors')",
 		},
 		Run: func(c *core.Ctx) {
-			cycles := 16
+			cycles := 24
 			if !c.Quick() {
-				cycles = 64
+				cycles = 96
 			}
 			idx := 0
 			for _, f := range c17Formats() {
